@@ -17,6 +17,7 @@ import (
 	"bufio"
 	"context"
 	"encoding/json"
+	"flag"
 	"fmt"
 	"os"
 	"os/exec"
@@ -204,6 +205,9 @@ func runChild(sc Scenario, pjson string) {
 		fmt.Fprintln(os.Stderr, "child: bad paths:", err)
 		os.Exit(2)
 	}
+	// glog: no "logging before flag.Parse" noise, log files go to TMPDIR (= the scratch directory)
+	flag.CommandLine.Parse(nil)
+	flag.Set("stderrthreshold", "FATAL")
 	dbs, driver := p.of(sc.Backend)
 	st := metrics.NewStats()
 	to := 10 * time.Second
@@ -565,8 +569,15 @@ func runScenario(sc Scenario, pjson string, scratch string, idx int) (res []Case
 			sum.Panics++
 		}
 		tail := stderr.String()
+		// start at the line that names the crash
+		for _, mark := range []string{"fatal error:", "panic:", "SIGSEGV", "unexpected signal", "WATCHDOG", "SIGABRT", "signal "} {
+			if i := strings.Index(tail, mark); i >= 0 {
+				tail = tail[i:]
+				break
+			}
+		}
 		if len(tail) > 5000 {
-			tail = tail[:2500] + "\n...\n" + tail[len(tail)-2500:]
+			tail = tail[:4000] + "\n...\n" + tail[len(tail)-1000:]
 		}
 		sum.Detail = fmt.Sprintf("child ended abnormally (%v): %s", werr, tail)
 	}
